@@ -1,3 +1,4 @@
+import copy
 import logging
 
 from bardolph.controller import units
@@ -566,7 +567,9 @@ class Machine:
     def _time_pattern(self) -> None:
         inst = self.current_inst
         if inst.param0 == SetOp.INIT:
-            self._reg.time = inst.param1
+            # Copy, because union() below modifies the pattern in place and
+            # inst.param1 belongs to the compiled program.
+            self._reg.time = copy.deepcopy(inst.param1)
         else:
             self._reg.time.union(inst.param1)
 
